@@ -24,6 +24,7 @@ import (
 	"os/exec"
 	"path/filepath"
 	"runtime"
+	"runtime/debug"
 	"strconv"
 	"strings"
 	"sync"
@@ -593,10 +594,13 @@ type c08Job struct {
 }
 
 type c08Result struct {
-	ID   int      `json:"id"`
-	Outs []string `json:"outs"`
-	Msgs []string `json:"msgs,omitempty"`
+	ID      int      `json:"id"`
+	Outs    []string `json:"outs"`
+	Msgs    []string `json:"msgs,omitempty"`
+	Skipped bool     `json:"-"` // not run: too many workers died before (see c08MaxCrashes)
 }
+
+const c08MaxCrashes = 24
 
 const c08JobTimeout = 300 * time.Second
 
@@ -839,6 +843,10 @@ func c08RunVariant(job *c08Job) *c08Result {
 
 // c08Worker: `vh C08-worker` reads jobs (one JSON per line) and writes results.
 func c08Worker(c *lib.Ctx) {
+	// admissible histories nest a few hundred frames deep; a runaway recursion that escapes the
+	// evaluation budget (it does not pass through Function.Eval) must die quickly, not after
+	// growing the default 1 GB stack
+	debug.SetMaxStack(96 << 20)
 	in := bufio.NewReaderSize(os.Stdin, 1<<20)
 	out := bufio.NewWriter(os.Stdout)
 	for {
@@ -899,7 +907,7 @@ func c08RunJobs(jobs []*c08Job, nw int) []*c08Result {
 	if nw < 1 {
 		nw = 1
 	}
-	var next int
+	var next, crashes int
 	var mu sync.Mutex
 	var wg sync.WaitGroup
 	for w := 0; w < nw; w++ {
@@ -915,6 +923,14 @@ func c08RunJobs(jobs []*c08Job, nw int) []*c08Result {
 				mu.Unlock()
 				if k >= len(jobs) {
 					break
+				}
+				mu.Lock()
+				tooMany := crashes >= c08MaxCrashes
+				mu.Unlock()
+				if tooMany {
+					// the verdict is settled (every crash is a violation); do not spend minutes on more
+					results[k] = &c08Result{ID: jobs[k].ID, Skipped: true}
+					continue
 				}
 				if served >= 4000 {
 					// fresh process now and then: the function tables only grow
@@ -959,6 +975,9 @@ func c08RunJobs(jobs []*c08Job, nw int) []*c08Result {
 					_ = p.cmd.Process.Kill()
 					_ = p.cmd.Wait()
 					results[k] = &c08Result{ID: jobs[k].ID, Outs: nil}
+					mu.Lock()
+					crashes++
+					mu.Unlock()
 					p = c08Spawn()
 					served = 0
 					continue
@@ -1136,6 +1155,18 @@ func c08SweepCells() []c08Cell {
 			c08Cell{"redefine-twice/" + p.name, []c08Step{def(h(0), ""), ev(c08Call("h", c08Const(1), c08Const(1))), def(h(1), "redef"), def(g, ""), ev(callG), def(h(2), "redef"), ag(0), ag(1), ev(callG)}},
 			c08Cell{"redefine-caller/" + p.name, []c08Step{def(h(0), ""), def(g, ""), ev(callG), def(&c08Def{Name: "g", Params: []string{"x"}, Body: c08Prim("-", p.body(callH()), c08Const(1000))}, "redef"), ag(0), ev(callG)}},
 		)
+		if p.name == "body" || p.name == "if-then" || p.name == "let-init" {
+			// "the hundredth time": the same object evaluated 100 times, a redefinition after the 50th
+			hundred := []c08Step{def(g, ""), def(h(0), ""), ev(callG)}
+			for q := 1; q < 50; q++ {
+				hundred = append(hundred, ag(0))
+			}
+			hundred = append(hundred, def(h(1), "redef"))
+			for q := 50; q < 100; q++ {
+				hundred = append(hundred, ag(0))
+			}
+			cells = append(cells, c08Cell{"reeval-100/" + p.name, hundred})
+		}
 		// the call position at top level (not inside a defun): the expression itself is the form
 		top := p.body(c08Call("h", c08Const(3), c08Const(2)))
 		if p.name == "if-then" {
@@ -1184,6 +1215,9 @@ type c08Mismatch struct {
 
 // c08Check compares a variant's result with the model's outcomes; returns the first mismatch.
 func c08Check(v *c08Variant, res *c08Result) *c08Mismatch {
+	if res != nil && res.Skipped {
+		return nil
+	}
 	if res == nil || res.Outs == nil {
 		return &c08Mismatch{v: v, at: 0, impl: "crash"}
 	}
@@ -1212,6 +1246,151 @@ func c08ReplayMap(v *c08Variant, res *c08Result, at int, expectedFrom string) ma
 		"expected_from": expectedFrom,
 		"relies_on":     []string{"SlipVerif.Compile.runC_correct", "SlipVerif.Compile.defs_commute", "SlipVerif.Compile.reeval_k", "SlipVerif.Compile.redefinition_takes_effect"},
 	}
+}
+
+// ---------------------------------------------------------------------------------------------
+// shrinking a failing composite history (same mode, same aspect) by delta debugging: drop steps,
+// then replace sub-expressions by one of their children or a constant.
+
+type c08Shrinker struct {
+	c        *lib.Ctx
+	attempts int
+	seq      int
+}
+
+func (sh *c08Shrinker) run(steps []c08Step, mode string) (*c08Variant, *c08Result, *c08Mismatch) {
+	if len(steps) == 0 || !c08Admissible(steps) {
+		return nil, nil, nil
+	}
+	sh.attempts++
+	sh.seq++
+	model, ok := c08ParseReply(sh.c.Model([]string{c08ModelLine("run", steps)})[0])
+	if !ok || len(model) != len(steps) {
+		return nil, nil, nil
+	}
+	for _, o := range model {
+		if o == "timeout" {
+			return nil, nil, nil
+		}
+	}
+	v := &c08Variant{mode: mode, steps: steps, model: model}
+	v.job = c08MakeJob(0, mode, steps, c08Suffix("s", sh.seq))
+	res := c08RunJobs([]*c08Job{v.job}, 1)[0]
+	return v, res, c08Check(v, res)
+}
+
+func c08DropStep(steps []c08Step, i int) []c08Step {
+	evalIdx := -1
+	if steps[i].Kind == "eval" {
+		evalIdx = 0
+		for _, s := range steps[:i] {
+			if s.Kind == "eval" {
+				evalIdx++
+			}
+		}
+	}
+	var out []c08Step
+	for k, s := range steps {
+		if k == i {
+			continue
+		}
+		if s.Kind == "again" && evalIdx >= 0 {
+			if s.J == evalIdx {
+				continue
+			}
+			if s.J > evalIdx {
+				s.J--
+			}
+		}
+		out = append(out, s)
+	}
+	return out
+}
+
+// c08Rewrite returns a copy of e in which the target-th node (preorder) is replaced by repl(node).
+func c08Rewrite(e *c08Expr, idx *int, target int, repl func(*c08Expr) *c08Expr) *c08Expr {
+	me := *idx
+	*idx++
+	if me == target {
+		return repl(e)
+	}
+	cp := *e
+	cp.Args = make([]*c08Expr, len(e.Args))
+	for i, a := range e.Args {
+		cp.Args[i] = c08Rewrite(a, idx, target, repl)
+	}
+	return &cp
+}
+
+func (sh *c08Shrinker) shrink(v *c08Variant, aspect string, limit int) (*c08Variant, *c08Result, *c08Mismatch) {
+	var best *c08Variant
+	var bestRes *c08Result
+	var bestMM *c08Mismatch
+	cur := v.steps
+	try := func(cand []c08Step) bool {
+		if sh.attempts >= limit {
+			return false
+		}
+		nv, res, mm := sh.run(cand, v.mode)
+		if mm == nil || nv == nil || c08Aspect(mm.impl, nv.model[mm.at]) != aspect {
+			return false
+		}
+		best, bestRes, bestMM, cur = nv, res, mm, cand
+		return true
+	}
+	for changed := true; changed && sh.attempts < limit; {
+		changed = false
+		for i := len(cur) - 1; i >= 0 && sh.attempts < limit; i-- {
+			if i < len(cur) && try(c08DropStep(cur, i)) {
+				changed = true
+			}
+		}
+		for si := 0; si < len(cur) && sh.attempts < limit; si++ {
+			var root *c08Expr
+			switch cur[si].Kind {
+			case "def":
+				root = cur[si].Def.Body
+			case "eval":
+				root = cur[si].Expr
+			default:
+				continue
+			}
+			for t := 0; t < root.size() && sh.attempts < limit; t++ {
+				var node *c08Expr
+				k := 0
+				c08Rewrite(root, &k, t, func(n *c08Expr) *c08Expr { node = n; return n })
+				if node == nil || node.Kind == "const" || node.Kind == "var" {
+					continue
+				}
+				cands := []*c08Expr{c08Const(1)}
+				if node.Kind != "let" && node.Kind != "if" {
+					cands = append(cands, node.Args...)
+				} else if node.Kind == "if" {
+					cands = append(cands, node.Args[1], node.Args[2])
+				}
+				for _, rep := range cands {
+					rep := rep
+					k = 0
+					nroot := c08Rewrite(root, &k, t, func(*c08Expr) *c08Expr { return rep })
+					cand := append([]c08Step{}, cur...)
+					if cur[si].Kind == "def" {
+						nd := *cur[si].Def
+						nd.Body = nroot
+						cand[si].Def = &nd
+					} else {
+						cand[si].Expr = nroot
+					}
+					if try(cand) {
+						changed = true
+						root = nroot
+						t--
+						break
+					}
+				}
+			}
+		}
+	}
+	return best, bestRes, bestMM
 }
 
 func c08Replay(c *lib.Ctx) {
@@ -1276,7 +1455,7 @@ func runC08(c *lib.Ctx) {
 	nSweep := len(variants)
 
 	// --- composite programs
-	nProg := c.Scale(260, 5000)
+	nProg := c.Scale(500, 9000)
 	g := &c08Gen{rng: c.Rng}
 	type progInfo struct {
 		p        *c08Program
@@ -1388,6 +1567,7 @@ func runC08(c *lib.Ctx) {
 
 	// --- compare
 	agree := 0
+	reported := map[string]bool{}
 	okMode := map[int]map[string]bool{} // history (ref index) → modes that agree with the model
 	for k, ref := range refs {
 		okMode[k] = map[string]bool{}
@@ -1415,6 +1595,13 @@ func runC08(c *lib.Ctx) {
 			nontrivial = nonAtomic >= 2 && len(v.steps) >= 2
 			c.Ev.Case(v.mode+"|"+modelLines[k], nontrivial)
 			c.Ev.Hist("mode", v.mode)
+			if q == 0 {
+				c.Ev.Hist("construct", c08Construct(v.steps, len(v.steps)-1))
+			}
+			if res != nil && res.Skipped {
+				c.Ev.Count("skipped_after_crashes", 1)
+				continue
+			}
 			mm := c08Check(v, res)
 			if mm == nil {
 				agree++
@@ -1441,7 +1628,24 @@ func runC08(c *lib.Ctx) {
 			if v.sweep != "" {
 				c.Report(fmt.Sprintf("cell=%s pair=%s|%s aspect=%s", v.sweep, v.mode, other, aspect), true, rm)
 			} else {
-				c.Report(fmt.Sprintf("pair=%s|%s %s aspect=%s", v.mode, other, c08Construct(v.steps, mm.at), aspect), false, rm)
+				sig := fmt.Sprintf("pair=%s|%s %s aspect=%s", v.mode, other, c08Construct(v.steps, mm.at), aspect)
+				if !reported[sig] && aspect != "host-crash" && len(reported) < 4 {
+					// minimise the first failing inputs (the full history stays in the replay file)
+					sh := &c08Shrinker{c: c}
+					if sv, sres, smm := sh.shrink(v, aspect, 120); sv != nil {
+						rm["original_history"] = c08HistoryText(v.steps)
+						small := c08ReplayMap(sv, sres, smm.at, expectedFrom)
+						for k, x := range small {
+							rm[k] = x
+						}
+						rm["observed_at_step"] = smm.impl + " " + smm.msg
+						rm["expected_at_step"] = sv.model[smm.at]
+						rm["step_text"] = sv.steps[smm.at].text(c08Ident)
+						rm["shrink_attempts"] = sh.attempts
+					}
+				}
+				reported[sig] = true
+				c.Report(sig, false, rm)
 			}
 		}
 	}
